@@ -152,7 +152,7 @@ func init() {
 		c07PresentChildModelled(w, r, w.ctxTable())
 		collectedIsUsed(w, r, "C07")
 		wholeInputRule(w, r, "C07") // declarations the parser never read get no type and no diagnostic
-		nameKeyedSetOverInline(w, r, "C07", func(fn *ssa.Function) bool { return isGeneratorFunc(fn) && recvNamedCore(fn) != "LuaWspGenerator" }, "a generator remembers the packets it has written under their names and consults that set for inline objects too: of two inline objects that share a name (or an inline object named like a declared packet) only the first is emitted, and the members of the other are encoded with its layout")
+		nameKeyedSetOverInline(w, r, "C07", func(fn *ssa.Function) bool { return isGeneratorFunc(fn) && recvNamedCore(fn) != "LuaWspGenerator" && roleOf(fn) != "test" }, "a generator remembers the packets it has written under their names and consults that set for inline objects too: of two inline objects that share a name (or an inline object named like a declared packet) only the first is emitted, and the members of the other are encoded with its layout")
 		wireModelFrame(w, r, "C07", framePackets, nil, map[string]bool{"Packet": true, "Field": true}, "a generator rewrites the packet list / a field list / the kind of a field in the shared model: the targets generated after it (and, for a list rewritten while it is being walked, the generator itself) no longer emit every declared packet and field")
 		c12OptionValidation(w, r, "C07") // a value outside the documented list reaches the type tables as a missing row: empty type names in the output
 		wireTemplateTaint(w, wc, r, "C07", []string{"go", "rust", "java", "python", "cpp", "lua"})
@@ -170,6 +170,8 @@ func init() {
 		goImportsUsed(w, wc, r, "C17")
 		wireBracketBalance(w, wc, r, "C17", map[string]bool{"test": true})
 		c17FloatSamples(w, r)
+		nameKeyedSetOverInline(w, r, "C17", func(fn *ssa.Function) bool { return isGeneratorFunc(fn) && roleOf(fn) == "test" }, "a sample / test emitter remembers packets under their names and consults that set for inline objects too: the sample of an inline object that shares its name with a construct seen before is skipped, the emitted test builds an incomplete message")
+		cycleGuardIsPathScoped(w, r, "C17")
 		wireModelFrame(w, r, "C17", framePackets, nil, map[string]bool{"Packet": true, "Field": true}, "a generator rewrites the packet list / a field list in the shared model: the self-tests of the targets generated after it no longer cover every declared packet")
 		wireAssumptions(r)
 	})
